@@ -12,3 +12,44 @@ REG.val("PairInfo", B + "core.pair.PairInfo", [("base_precision", "Int"), ("quot
 REG.val("SymbolInfo", B + "backtesting.config.SymbolInfo", [("precision", "Int")])
 
 REG.klass("ValueMap", B + "backtesting.value_map.ValueMap", bases=["Dict[Str,Real]"])
+
+# --- backtesting: config ------------------------------------------------------------------------------------------
+REG.klass("Config", B + "backtesting.config.Config",
+          fields={"_symbol_info": "Dict[Str,Val:SymbolInfo]", "_default_symbol_info": "Opt[Val:SymbolInfo]",
+                  "_pair_info": "Dict[Val:Pair,Val:PairInfo]", "_default_pair_info": "Opt[Val:PairInfo]"})
+
+# --- backtesting: account balances --------------------------------------------------------------------------------
+REG.klass("UpdateRule", B + "backtesting.account_balances.UpdateRule", abstract=True)
+REG.klass("NonZero", B + "backtesting.account_balances.NonZero", bases=["UpdateRule"])
+REG.klass("ValidHold", B + "backtesting.account_balances.ValidHold", bases=["UpdateRule"])
+REG.klass("AccountBalances", B + "backtesting.account_balances.AccountBalances",
+          fields={"balances": "ValueMap", "holds": "ValueMap", "borrowed": "ValueMap",
+                  "_update_rules": "List[UpdateRule]"})
+
+# --- backtesting: orders -------------------------------------------------------------------------------------------
+REG.klass("Fill", B + "backtesting.orders.Fill",
+          fields={"when": "DT", "balance_updates": "Dict[Str,Real]", "fees": "Dict[Str,Real]"})
+REG.klass("OrderInfo", B + "backtesting.orders.OrderInfo",
+          fields={"id": "Str", "is_open": "Bool", "operation": "OrderOperation", "amount": "Real",
+                  "amount_filled": "Real", "amount_remaining": "Real", "quote_amount_filled": "Real",
+                  "fees": "Dict[Str,Real]", "limit_price": "Opt[Real]", "stop_price": "Opt[Real]",
+                  "loan_ids": "List[Str]"})
+REG.klass("Order", B + "backtesting.orders.Order", abstract=True,
+          fields={"_id": "Str", "_operation": "OrderOperation", "_pair": "Val:Pair", "_amount": "Real",
+                  "_state": "OrderState", "_balance_updates": "ValueMap", "_fees": "ValueMap",
+                  "_fills": "List[Fill]", "_auto_borrow": "Bool", "_auto_repay": "Bool", "_loan_ids": "Set[Str]"})
+REG.klass("MarketOrder", B + "backtesting.orders.MarketOrder", bases=["Order"])
+REG.klass("LimitOrder", B + "backtesting.orders.LimitOrder", bases=["Order"], fields={"_limit_price": "Real"})
+REG.klass("StopOrder", B + "backtesting.orders.StopOrder", bases=["Order"], fields={"_stop_price": "Real"})
+REG.klass("StopLimitOrder", B + "backtesting.orders.StopLimitOrder", bases=["Order"],
+          fields={"_stop_price": "Real", "_limit_price": "Real", "_stop_price_hit": "Bool"})
+
+# --- backtesting: fees ---------------------------------------------------------------------------------------------
+REG.klass("FeeStrategy", B + "backtesting.fees.FeeStrategy", abstract=True)
+REG.klass("NoFee", B + "backtesting.fees.NoFee", bases=["FeeStrategy"])
+REG.klass("Percentage", B + "backtesting.fees.Percentage", bases=["FeeStrategy"],
+          fields={"_percentage": "Real", "_min_fee": "Real"})
+
+# --- core: token bucket -------------------------------------------------------------------------------------------
+REG.klass("TokenBucketLimiter", B + "core.token_bucket.TokenBucketLimiter",
+          fields={"_tokens_per_period": "Real", "_period_duration": "Real", "_tokens": "Real", "_last": "Real"})
